@@ -237,6 +237,8 @@ def shape_tag(sig):
 
 
 def check(c, st):
+    if c.get('kind') == 'names':
+        return check_names(c, st)
     fu = common.load('funcutils')
     sig = c['sig']
     f = make(sig)
@@ -467,8 +469,103 @@ def check(c, st):
     return None
 
 
+# ---------------------------------------------------------------- names and docstrings
+
+NAME_SOURCES = [
+    # parameter / function names that a code generator might use itself, docstrings absent, empty, multi-line
+    'def target(_call, x=2):\n    return (_call, x)\n',
+    'def target(x, _call=3, *, _func=4):\n    "doc"\n    return (x, _call, _func)\n',
+    'def target(*_call, **_func):\n    return (_call, _func)\n',
+    'def _call(a, b=1):\n    "doc"\n    return (a, b)\n',
+    'def _func(a, *, _call):\n    return (a, _call)\n',
+    'def target(self, cls=None, wrapper=1, func=2, fb=3, execdict=4):\n    return (self, cls, wrapper, func, fb, execdict)\n',
+    'def target(_, __=1, *, ___=2):\n    return (_, __, ___)\n',
+    'def target(a, b=1):\n    return (a, b)\n',
+    'def target(a, b=1):\n    ""\n    return (a, b)\n',
+    'def target(a, b=1):\n    """First line.\n\n        indented more\n    back again  \n\n    """\n    return (a, b)\n',
+    'def target(a, b=1):\n    "  leading and trailing blanks\\t "\n    return (a, b)\n',
+    'def target(a, b=1):\n    """\n    starts with a line break\n    """\n    return (a, b)\n',
+    'async def target(_call, *, _func=1):\n    return (_call, _func)\n',
+    'def target(name, body=1, doc=2, module=3, indent=4, dict=5, filename=6):\n    return (name, body, doc, module, indent, dict, filename)\n',
+    'def target(args, varargs=1, *, varkw=2, defaults=3, kwonlyargs=4, annotations=5):\n    return (args, varargs, varkw, defaults, kwonlyargs, annotations)\n',
+]
+
+
+def check_names(c, st):
+    fu = common.load('funcutils')
+    src = NAME_SOURCES[c['names']]
+    ns = {}
+    exec(src, ns)
+    f = [v for k, v in ns.items() if k != '__builtins__'][0]
+    f.__module__ = 'verif_generated_module'
+    is_async = inspect.iscoroutinefunction(f)
+    if c.get('doc_assigned') is not None:
+        f.__doc__ = c['doc_assigned']           # a docstring assigned at run time (templates, translated docs)
+    if is_async:
+        async def passthrough(*a, **kw):
+            return await f(*a, **kw)
+    else:
+        def passthrough(*a, **kw):
+            return f(*a, **kw)
+    head = src.splitlines()[0]
+    st.monitor_evals += 1
+    for label, kwargs in (('', {}), (':update_dict=False', {'update_dict': False})):
+        try:
+            w = fu.wraps(f, **kwargs)(passthrough)
+        except Exception as e:
+            return ('wraps-raised:names:%s' % type(e).__name__, 'wraps(%s) raised %r' % (head, e))
+        sf, sw = inspect.signature(f), inspect.signature(w, follow_wrapped=False)
+        d = sigdiff(sf, sw)
+        if d:
+            return ('signature:%s:names%s' % (d, label), '%s -> wrapper signature %s' % (head, sw))
+        for attr in ('__name__', '__doc__', '__module__', '__qualname__'):
+            if attr == '__qualname__':
+                continue        # not named by the statement
+            a, b = getattr(w, attr, None), getattr(f, attr)
+            if a != b or type(a) is not type(b):
+                return ('metadata:%s:names%s' % (attr, label), '%s: wrapper has %s=%r, the wrapped function %r' % (head, attr, a, b))
+        if getattr(w, '__wrapped__', None) is not f:
+            return ('metadata:__wrapped__:names', '__wrapped__ is %r' % (getattr(w, '__wrapped__', None),))
+        params = list(sf.parameters.values())
+        req = [q for q in params if q.default is q.empty and q.kind in (q.POSITIONAL_OR_KEYWORD,)]
+        kwo_req = [q for q in params if q.default is q.empty and q.kind == q.KEYWORD_ONLY]
+        shapes = [(tuple('p%d' % i for i in range(len(req))), dict((q.name, 'k_' + q.name) for q in kwo_req)),
+                  ((), dict((q.name, 'k_' + q.name) for q in req + kwo_req)),
+                  (tuple('p%d' % i for i in range(len(req))), dict((q.name, 'k_' + q.name) for q in params
+                                                                   if q.kind == q.KEYWORD_ONLY or (q.kind == q.POSITIONAL_OR_KEYWORD and q not in req))),
+                  (tuple('p%d' % i for i in range(len(req) + 1)), dict((q.name, 'k_' + q.name) for q in kwo_req)),
+                  ((), {}), (('x',) * 9, {}), ((), {'zz_unknown': 1})]
+        for args, kw in shapes:
+            st.monitor_evals += 1
+            rf, rw = call(f, is_async, args, kw), call(w, is_async, args, kw)
+            if rf != rw:
+                return ('call:names', '%s called with args=%r kwargs=%r: original %r, wrapper %r' % (head, args, kw, rf, rw))
+        for q in params:
+            if q.kind not in (q.POSITIONAL_OR_KEYWORD, q.KEYWORD_ONLY):
+                continue
+            st.monitor_evals += 1
+            try:
+                wi = fu.wraps(f, injected=[q.name], **kwargs)(passthrough)
+            except Exception as e:
+                return ('injected-raised:names:%s' % type(e).__name__, 'wraps(%s, injected=%r) raised %r' % (head, q.name, e))
+            got = [(x.name, x.kind, x.default) for x in inspect.signature(wi, follow_wrapped=False).parameters.values()]
+            if got != [(x.name, x.kind, x.default) for x in params if x.name != q.name]:
+                return ('injected:names', '%s with injected=%r -> %s' % (head, q.name, inspect.signature(wi, follow_wrapped=False)))
+    st.count('name_and_docstring_cases')
+    st.see(('names', c['names'], c.get('doc_assigned')))
+    return None
+
+
 def run(ctx):
     sigs = list(all_signatures())
+    if ctx.shard == 0:
+        shr0 = {}
+        for i in range(len(NAME_SOURCES)):
+            for doc in (None, 'assigned\n    later  ', ''):
+                case = {'kind': 'names', 'names': i}
+                if doc is not None:
+                    case['doc_assigned'] = doc
+                run_case(ctx, case, check, 'names', None, shr0)
     if ctx.thorough:
         mine = [s for i, s in enumerate(sigs) if i % ctx.nshards == ctx.shard]
         sample = None
